@@ -292,3 +292,26 @@ Definition noform_X : ext :=
 Definition bad_form_req : rmsg :=
   mkRmsg (B "POST") (B "http://h/") (B "HTTP/1.1") (B "h") 5 []
          [(B "Content-Type", [B "application/x-www-form-urlencoded"])] (B "a=%zz") [] [].
+
+(* "request_dropped": the oracle rejects a missing request exactly when the
+   specification does not allow it to be missing *)
+Theorem request_dropped_verdict : forall X cap m rt,
+  c16_req_ok X cap m Err rt = false <-> ~ req_may_drop X cap m.
+Proof.
+  intros X cap m rt. pose proof (c16_req_ok_iff X cap m Err rt) as H. cbn [req_spec] in H.
+  destruct (c16_req_ok X cap m Err rt); split; intro G; try reflexivity; try discriminate.
+  - exfalso. apply G. apply H. reflexivity.
+  - intro D. apply H in D. discriminate.
+Qed.
+
+(* a multipart upload with a browser-style mixed-case boundary *)
+Definition webkit_X : ext :=
+  mkExt (fun b => b) (fun b => Some b) (forallb ascii7) (fun s => s) Some Some Some dechunk_concrete
+        (fun ct => Some (B "multipart/form-data", B "----WebKitFormBoundary7MA4YWxkTrZu0gW"))
+        (fun _ => Some [])
+        (fun bnd _ => if beq bnd (B "----WebKitFormBoundary7MA4YWxkTrZu0gW")
+                      then Some [mkParam (B "f") (B "v") [] []] else None).
+Definition webkit_req : rmsg :=
+  mkRmsg (B "POST") (B "http://h/") (B "HTTP/1.1") (B "h") 9 []
+         [(B "Content-Type", [B "Multipart/Form-Data; Boundary=----WebKitFormBoundary7MA4YWxkTrZu0gW"])]
+         (B "multipart") [] [].
